@@ -2754,6 +2754,24 @@ func (db *DB) Export(ctx context.Context, dst io.Writer) (ltx.Pos, error) {
 	}
 	gs.pending.Unlock()
 
+	// A valid rollback journal that no connection holds RESERVED for belongs to
+	// a transaction whose owner died: the database file may contain its
+	// uncommitted pages. Roll it back first, as a SQLite reader would, instead
+	// of exporting them under the committed position.
+	if ok, _ := db.isJournalHeaderValid(); ok && db.reservedLock.State() != RWMutexStateExclusive {
+		gs.shared.Unlock()
+		if err := db.Recover(ctx); err != nil {
+			return ltx.Pos{}, fmt.Errorf("roll back hot journal: %w", err)
+		}
+		if err := gs.pending.RLock(ctx); err != nil {
+			return ltx.Pos{}, fmt.Errorf("acquire PENDING read lock: %w", err)
+		}
+		if err := gs.shared.RLock(ctx); err != nil {
+			return ltx.Pos{}, fmt.Errorf("acquire SHARED read lock: %w", err)
+		}
+		gs.pending.Unlock()
+	}
+
 	// If this is WAL mode then temporarily obtain a write lock so we can copy
 	// out the current database size & wal frames before returning to a read lock.
 	if db.Mode() == DBModeWAL {
